@@ -113,7 +113,7 @@ type c18Case struct {
 }
 
 func genAckOnly(t *rapid.T) dhcpHistory {
-	h := dhcpHistory{Cfg: dhcpCfg{Net: rapid.SampledFrom([]int{0, 0, 1, 2, 3}).Draw(t, "net"), Mode: rapid.IntRange(1, 3).Draw(t, "mode"), DNS: rapid.SampledFrom([]int{0, 0, 0, 1, 2}).Draw(t, "dnsCfg")}}
+	h := dhcpHistory{Cfg: dhcpCfg{Net: rapid.SampledFrom([]int{0, 0, 1, 2, 3, 4}).Draw(t, "net"), Mode: rapid.IntRange(1, 3).Draw(t, "mode"), DNS: rapid.SampledFrom([]int{0, 0, 0, 1, 2}).Draw(t, "dnsCfg")}}
 	nclients := rapid.IntRange(1, 6).Draw(t, "nclients")
 	for i := rapid.IntRange(1, 10).Draw(t, "nsteps"); i > 0; i-- {
 		c := rapid.IntRange(0, nclients-1).Draw(t, "c")
